@@ -57,3 +57,35 @@ let run_case line =
     let l = cut rs in
     if List.mem "panic" l then "panic" else String.concat "," l
   | _ -> failwith ("bad hostile case: " ^ line)
+
+(* the H cases as Gallina equations (kernel cross-check of the extracted client model and size hint) *)
+let coq_header =
+  "Require Import Cadence.Base.Prelude Cadence.Model.Convert Cadence.Model.Wire Cadence.Model.Client Cadence.Model.Hint.\n"
+
+let coq_case line =
+  if String.length line > 1200 then None else
+  match tokens line with
+  | "H" :: _sink :: prefix :: dtags :: dcid :: n :: rest ->
+    let cfg = { c_prefix = unhex0 prefix; c_tags = parse_dtags dtags;
+                c_container = (if dcid = "~" then None else Some (unhex0 dcid)) } in
+    let rec calls k rest acc =
+      if k = 0 then List.rev acc else
+      match rest with
+      | _form :: kind :: arg :: key :: ops :: rest' ->
+        calls (k - 1) rest' ({ k_kind = parse_kind kind; k_key = unhex0 key; k_arg = parse_arg arg; k_ops = parse_ops ops } :: acc)
+      | _ -> failwith "short H case" in
+    let cs = calls (int_of_string n) rest [] in
+    let g_call c = "{| k_kind := " ^ g_kind c.k_kind ^ "; k_key := " ^ g_str c.k_key ^
+                   "; k_arg := " ^ g_arg c.k_arg ^ "; k_ops := " ^ g_lst "bop" g_bop c.k_ops ^ " |}" in
+    let g_cfg = Printf.sprintf "{| c_prefix := %s; c_tags := %s; c_container := %s |}"
+        (g_str cfg.c_prefix) (g_lst "tag" g_tag cfg.c_tags) (g_option g_str cfg.c_container) in
+    let g_line = function
+      | None -> "None"
+      | Some (Inl e) -> "(Some (inl " ^ (match e with InvalidInput -> "InvalidInput" | IoError -> "IoError") ^ "))"
+      | Some (Inr l) -> "(Some (inr " ^ g_str l ^ "))" in
+    let g_hint = function
+      | None -> "None" | Some None -> "(Some None)" | Some (Some h) -> "(Some (Some " ^ g_N h ^ "))" in
+    Some (Printf.sprintf "map (fun c => (client_line %s c, call_hint %s c)) %s = %s" g_cfg g_cfg (g_lst "call" g_call cs)
+            (g_lst "(option (errkind + list N) * option (option N))"
+               (fun c -> g_pair (g_line (client_line cfg c)) (g_hint (call_hint cfg c))) cs))
+  | _ -> None
